@@ -418,7 +418,11 @@ func writeReplay(dir string, rf *replayFile) (string, error) {
 	os.MkdirAll(dir, 0o755)
 	b, _ := json.MarshalIndent(rf, "", " ")
 	h := sha256.Sum256(b)
-	p := filepath.Join(dir, fmt.Sprintf("%s-%s-%s.json", rf.Harness, sanitize(rf.Label), hex.EncodeToString(h[:4])))
+	lab := sanitize(rf.Label)
+	if len(lab) > 160 { // file names are limited to 255 bytes; the label is in the file and the digest keeps names apart
+		lab = lab[:160]
+	}
+	p := filepath.Join(dir, fmt.Sprintf("%s-%s-%s.json", rf.Harness, lab, hex.EncodeToString(h[:4])))
 	return p, os.WriteFile(p, b, 0o644)
 }
 
